@@ -546,7 +546,7 @@ func (ctx Ctx) methodExpr(call *ast.CallExpr) coq.Expr {
 	// https://go.googlesource.com/example/+/HEAD/gotypes#named-types
 	if ctx.info.Types[call.Fun].IsType() {
 		// string -> []byte conversions are handled specially
-		if f, ok := call.Fun.(*ast.ArrayType); ok {
+		if f, ok := unparen(call.Fun).(*ast.ArrayType); ok {
 			if f.Len == nil && isIdent(f.Elt, "byte") {
 				arg := args[0]
 				if isString(ctx.typeOf(arg)) {
@@ -555,7 +555,7 @@ func (ctx Ctx) methodExpr(call *ast.CallExpr) coq.Expr {
 			}
 		}
 		// []byte -> string are handled specially
-		if f, ok := call.Fun.(*ast.Ident); ok && f.Name == "string" {
+		if f, ok := unparen(call.Fun).(*ast.Ident); ok && f.Name == "string" {
 			arg := args[0]
 			if isString(ctx.typeOf(arg).Underlying()) {
 				return ctx.expr(args[0])
@@ -1140,8 +1140,20 @@ func (ctx Ctx) function(s *ast.Ident) coq.Expr {
 
 // isBuiltin checks that e is the predeclared identifier name, and not a
 // user-defined function or type that merely has the same name
+// unparen strips the parentheses around an expression: (uint64)(x) is the
+// same conversion as uint64(x).
+func unparen(e ast.Expr) ast.Expr {
+	for {
+		p, ok := e.(*ast.ParenExpr)
+		if !ok {
+			return e
+		}
+		e = p.X
+	}
+}
+
 func (ctx Ctx) isBuiltin(e ast.Expr, name string) bool {
-	ident, ok := e.(*ast.Ident)
+	ident, ok := unparen(e).(*ast.Ident)
 	return ok && ident.Name == name && ctx.goBuiltin(ident)
 }
 
